@@ -137,11 +137,18 @@ pub struct Host {
     inner: Option<Inner>,
     /// the host cannot be used any further (documented panic poisoned it)
     pub dead: bool,
+    spawned: u8,
+}
+
+/// site of the n-th task added through `Command::spawn` by the holder of the command
+pub fn spawn_more_site(n: u8) -> crate::dsl::S {
+    let id = 900 + 2 * u16::from(n);
+    crate::dsl::S { id, label: id }
 }
 
 impl Host {
     pub fn new(kind: HostKind) -> Host {
-        Host { kind, inner: None, dead: false }
+        Host { kind, inner: None, dead: false, spawned: 0 }
     }
 
     /// Creates the subject. Core-like hosts deliver the start event, which is a call.
@@ -438,6 +445,29 @@ impl Host {
 
     pub fn abort(&mut self, k: u8) -> bool {
         fire_abort(k)
+    }
+
+    /// The holder of a directly held command gives it one more task (`Command::spawn`): a request
+    /// followed by an event. A stream host polls again afterwards, finished or not (`spawn` wakes
+    /// nobody: polling again is the holder's business).
+    pub fn spawn_more(&mut self) {
+        let site = spawn_more_site(self.spawned);
+        self.spawned += 1;
+        let add = |cmd: &mut Cmd| {
+            cmd.spawn(move |ctx| async move {
+                let v = crate::build::areq_owned(ctx.clone(), site, 0).await;
+                ctx.send_event(Event::got(site, v));
+            });
+        };
+        match self.inner.as_mut().unwrap() {
+            Inner::Direct { cmd, .. } => add(cmd),
+            Inner::Stream { cmd, flag, ended, .. } => {
+                add(cmd);
+                *ended = false;
+                flag.0.store(true, Ordering::SeqCst);
+            }
+            _ => panic!("only command-level hosts hold the command"),
+        }
     }
 
     /// Direct hosts: take outputs. Core-like hosts: a no-op probe event.
